@@ -210,3 +210,30 @@ def liveReadyA (s : RState) : List Nat := s.logA.filter (fun a => s.w.any (fun l
 def liveReadyB (s : RState) : List Nat := s.logB.filter (fun b => s.w.any (fun l => l.c.idB == b && l.openB))
 
 end Election
+
+/-! ## the pre-authentication check as the session performs it (round 4)
+
+`stepPreA` is `check_candidate`. The session does not call that: it calls `CheckSession` with the
+peer's name and its own nonce (`check_session`), which first looks the candidate up by (name, nonce)
+among ALL registered sessions and answers `NoOtherConnection` (carry on) when more than one matches.
+`stepPreSA` is that: the `preA` step when this connection's nonce is unique among the connections
+open on A, nothing otherwise. -/
+
+namespace Election
+
+/-- ids of the sessions open on A / B whose nonce is `n` (all sessions here carry the peer's name) -/
+def matchA (w : List Link) (n : Nat) : List Nat :=
+  (w.filter (fun l => l.openA && nz l.c.nonce == nz n)).map (·.c.idA)
+def matchB (w : List Link) (n : Nat) : List Nat :=
+  (w.filter (fun l => l.openB && nz l.c.nonce == nz n)).map (·.c.idB)
+
+def stepPreSA (o : Ordering) (w : List Link) (a : Nat) : List Link :=
+  match w.find? (fun l => l.c.idA == a) with
+  | some l => if (matchA w l.c.nonce).length == 1 then stepPreA o w a else w
+  | none => w
+def stepPreSB (o : Ordering) (w : List Link) (b : Nat) : List Link :=
+  match w.find? (fun l => l.c.idB == b) with
+  | some l => if (matchB w l.c.nonce).length == 1 then stepPreB o w b else w
+  | none => w
+
+end Election
